@@ -1,7 +1,7 @@
 # C12 - `meson test` runs each test once, isolates serial tests and reports truthfully.
 #
-# Part 1 (deciding, exhaustive; level model_checking).  The REAL mesonbuild.mtest.run(options) -> TestHarness ->
-# doit() -> asyncio.run(_run_tests) is executed, from a real build directory (`meson setup --backend=none` of a
+# Part 1 (deciding, exhaustive; level model_checking).  The REAL mesonbuild.mtest.TestHarness(options).doit() ->
+# run_tests() -> asyncio.run(_run_tests), with options parsed by mtest.add_arguments, is executed, from a real build directory (`meson setup --backend=none` of a
 # generated project, so a real meson_test_setup.dat), under verif.vloop: a virtual asyncio loop whose fake selector
 # is the choice point, fake subprocesses with real StreamReaders, a stubbed os.killpg.  For every configuration
 # (ordered test set x --num-processes x --repeat x --maxfail) the stateless explorer runs EVERY order of enabled
@@ -71,6 +71,7 @@ DEFAULT_STREAM = {'ok': 'ok', 'fail': 'notok', 'skip': 'skip', 'err': 'ok', 'sig
 BAD = ('FAIL', 'ERROR', 'TIMEOUT', 'UNEXPECTEDPASS')
 HORIZON = 60
 RUN_CAP = 60000        # executions per configuration; hitting it clears `exhaustive`
+EARLY_STOP = 40         # stop exploring after this many new (not known) violations; clears `exhaustive`
 
 T_PY = '''#!%s
 # Test program of the C12 check.  Part 1 never executes it.  Part 2: behaviour comes from $C12_PLAN, events
@@ -521,7 +522,7 @@ def behaviour_of(cfg):
 
 
 def run_schedule(cfg, wd, prefix=(), sig=()):
-    """One execution: real mtest.run(options) under the virtual loop. -> (Run, log, transitions, rc, out, jrecs)."""
+    """One execution: real TestHarness(options).doit() under the virtual loop. -> (Run, log, transitions, rc, out, jrecs)."""
     jpath = os.path.join(wd, 'meson-logs', 'testlog.json')
 
     def body(world):
@@ -536,7 +537,10 @@ def run_schedule(cfg, wd, prefix=(), sig=()):
         old = sys.stdout, sys.stderr
         sys.stdout = sys.stderr = buf
         try:
-            rc = mtest.run(opts)
+            # what mtest.run(options) does after argument parsing, for a build directory with backend=none
+            opts.no_rebuild = True
+            with mtest.TestHarness(opts) as th:
+                rc = th.doit()
         finally:
             sys.stdout, sys.stderr = old
             world.stdout_text = buf.getvalue()
@@ -784,8 +788,8 @@ def run_real(case):
     events = []
     try:
         for l in open(logp):
-            p = l.split()
-            events.append((p[0], p[1], float(p[-1]), int(p[2]) if p[0] == 'end' else None))
+            p = l.split()       # `start key ts` | `term key ts` | `end rc key ts`
+            events.append((p[0], p[-2], float(p[-1]), int(p[1]) if p[0] == 'end' else None))
     except OSError:
         pass
     jrecs = []
@@ -934,7 +938,11 @@ def main():
         perfam = collections.defaultdict(collections.Counter)
         nsamp = 0
         pending = []
-        for (cfg, bound), agg in zip(confs, pmap(explore_config, confs, chunksize=4)):
+        fresh = 0
+        stopped_early = False
+        known_keys = {k['key'] for k in ck.known if k.get('status') == 'known'}
+        results = pmap(explore_config, confs, chunksize=4)
+        for (cfg, bound), agg in zip(confs, results):
             f = cfg['fam']
             perfam[f]['configurations'] += 1
             perfam[f]['executions'] += agg['execs']
@@ -948,11 +956,20 @@ def main():
                 tot[k] += v
             classes |= set(map(tuple, agg['classes']))
             pending += agg['viol']
+            fresh += sum(1 for v in agg['viol'] if v[0] not in known_keys)
+            if fresh >= EARLY_STOP:
+                # enough counterexamples (simplest configurations first): do not spend the rest of the budget
+                stopped_early = True
+                break
             if agg['sample'] and nsamp < 3 and len(cfg['tests']) >= 3 and cfg['jobs'] >= 2:
                 ck.sample(agg['sample'])
                 nsamp += 1
+        results.close()
         tot['wall_explore_s'] = int(time.time() - ck.t0)
         report(ck, pending)
+        if stopped_early:
+            exhaustive = False
+            tot['stopped_early_after_violations'] = fresh
         tot['wall_with_report_s'] = int(time.time() - ck.t0)
         states += tot['points']
         transitions += tot['transitions']
@@ -961,14 +978,15 @@ def main():
             exhaustive = False
         ck.part('part1', **{k: tot[k] for k in sorted(tot)})
         ck.part('part1_families', **{f: dict(c) for f, c in perfam.items()})
-        ck.require(tot['serial_waited_for_parallel'] > 0, 'no execution in which a serial test had to wait for running parallel tests')
-        ck.require(tot['serial_ran_with_pending_launches'] > 0, 'no execution in which a serial test overlapped with the launch loop')
-        ck.require(tot['exec_with_timeout'] > 0, 'no execution in which a timeout fired')
-        ck.require(tot['cut_maxfail'] > 0, 'no execution cut short by --maxfail')
-        ck.require(tot['cut_repeat'] > 0, 'no execution cut short by a failure under --repeat')
-        ck.require(tot['jobs_saturated'] > 0, 'job limit never reached')
-        ck.require(tot['exec_with_deviation'] > 0, 'no non-default schedule')
-        ck.require(len(classes) >= 20, 'too few classification classes observed: %d' % len(classes))
+        if not stopped_early and not os.environ.get('C12_FAMS'):     # coverage requirements are meaningless for an aborted exploration
+            ck.require(tot['serial_waited_for_parallel'] > 0, 'no execution in which a serial test had to wait for running parallel tests')
+            ck.require(tot['serial_ran_with_pending_launches'] > 0, 'no execution in which a serial test overlapped with the launch loop')
+            ck.require(tot['exec_with_timeout'] > 0, 'no execution in which a timeout fired')
+            ck.require(tot['cut_maxfail'] > 0, 'no execution cut short by --maxfail')
+            ck.require(tot['cut_repeat'] > 0, 'no execution cut short by a failure under --repeat')
+            ck.require(tot['jobs_saturated'] > 0, 'job limit never reached')
+            ck.require(tot['exec_with_deviation'] > 0, 'no non-default schedule')
+            ck.require(len(classes) >= 20, 'too few classification classes observed: %d' % len(classes))
 
     # ---- selection ----
     if ck.want('sel'):
@@ -1031,6 +1049,9 @@ def main():
     else:
         part2_runs = 0
 
+    if os.environ.get('C12_DEBUG'):
+        print(json.dumps(ck.parts, indent=1, sort_keys=True, default=repr))
+        print('KEYS', json.dumps(ck._seen_keys, indent=1))
     ck.assume('environment model: a fake process writes its whole output, closes its pipes and exits in ONE event; SIGTERM makes a process '
               'exit (rc -15) at an explorer-chosen later point, SIGKILL immediately; fake process creation never fails or suspends')
     ck.assume('ERROR and (unspecified) INTERRUPT have no summary line of their own; ERROR is tallied under `Fail:`')
